@@ -32,12 +32,12 @@ SPECS['C19'] = dict(
 )
 
 SPECS['C08'] = dict(
-    kind='native', drivers=['p_c08.cpp'], shims=['sut_inst'], with_lib=True,
+    kind='native', drivers=['p_c08.cpp'], shims=['sut_inst', 'sut_strm', 'sut_echsd'], shim_flags={'sut_echsd': ['-I/verif/sut/fakeev']}, repo_srcs=['logger'], with_lib=True,
     level='exploration', exhaustive_part=True,
     technique='exhaustive day-level enumeration + rapidcheck sampling against independent civil-calendar arithmetic (Hinnant)',
     level_text=('Every day of 1901-2099 (all-day, second- and millisecond-resolution instants) is combined with a fixed set of ~330 signed day '
                 'deltas and both range ends: add vs calendar, diff(add)=delta, diff reversed, add inverse; epoch conversions of every day at '
-                '00:00:00/23:59:59/one more second; sampled: arbitrary pairs at ms resolution, fixup of overflowed fields, ordering predicates.'),
+                '00:00:00/23:59:59/one more second, each also through echsd.c\'s instant_to_tstamp() (the wake-up time the daemon computes); sampled: arbitrary pairs at ms resolution, fixup of overflowed fields, ordering predicates.'),
     level_note='trusts oracle/civil.hpp (days_from_civil / civil_from_days) and the field-copy shim sut/sut_inst.c; ASan+bounds on',
     rule=('exhaustive: every day 1901-01-01..2099-12-31 x 3 instant kinds (ms, all-sec, all-day) x ~330 signed day deltas (1..62, 7k, month/year '
           'lengths, 2^n, 2^n+-1, distance to both range ends) -> add/diff/inverse; epoch round trip at 3 seconds of every day; sampled (rapidcheck): '
